@@ -233,6 +233,13 @@ def sim_open(file, mode="r", buffering=-1, encoding=None, errors=None, newline=N
         return _wrap_gate(p, fd, mode, buffering, encoding, errors, newline)
     # read mode
     SIM.event("open", rel(p))
+    if p.endswith(".index"):
+        try:
+            with _real_open(p, "rb") as peek:
+                if b"\x00" in peek.read():
+                    SIM.probe("hole_state_seen")
+        except OSError:
+            pass
     f = _real_open(file, mode, buffering, encoding, errors, newline, closefd, opener)
     if "b" in mode:
         return RFile(f, p)
